@@ -214,10 +214,94 @@ def r4(ctx):
     c01.read_gate(ctx, P, "C08.R4")
 
 
-RULES = [r1, r2, r3, r3b, r4]
+def r5(ctx):
+    """the page walk of DynamicBitfield::set_range covers exactly [start, start + length): on every
+    way round its loop the in-page offset restarts at 0, the page number advances by one and the
+    remaining length shrinks by exactly the part of the range that lies in the current page,
+    min(length, PAGE - j) — which is also the count handed to the page's own set_range.  Decided by
+    path-sensitive affine dataflow over one iteration (hcsa/pathval.py); a way round that touches
+    no page (an "absent page" short cut) is held to the same arithmetic."""
+    from .. import pathval as PV
+    rule = "C08.R5"
+    fa = ctx.fn(BF_SET_RANGE)
+    if not need(ctx, P, rule, BF_SET_RANGE, fa):
+        return
+    page = const_lookup(ctx, "bitfield::dynamic::DYNAMIC_BITFIELD_PAGE_SIZE")
+    loops = sorted(fa.loops(), key=lambda x: -len(x[1]))
+    if not need(ctx, P, rule, "DynamicBitfield::set_range: page loop", loops):
+        return
+    h, body, _ = loops[0]
+    paths = PV.walk(fa, h, {h})
+    if not need(ctx, P, rule, "DynamicBitfield::set_range: loop-free page loop body", paths):
+        return
+    rounds = [p_ for p_ in paths if p_.end == "stop"]
+    if not need(ctx, P, rule, "DynamicBitfield::set_range: ways round the page loop", rounds):
+        return
+    # loop-carried variables: named locals assigned on some way round and defined before the loop
+    carried = sorted({l for p_ in rounds for l in p_.env if fa.body.local_name(l) and any(d[1] not in body for d in fa.body.defs.get(l, []))})
+    # roles by what every way round does to them
+    def all_same(l):
+        vs = {PV.render(p_.env.get(l, PV.lf_sym(fa.body.local_name(l)))) for p_ in rounds}
+        return vs
+    role = {}
+    for l in carried:
+        vs = all_same(l)
+        nm = fa.body.local_name(l)
+        if vs == {"0"}:
+            role["offset"] = l
+        elif vs == {"1 + %s" % nm}:
+            role["page"] = l
+    # the remaining length: the carried variable every way round decreases (other carried variables,
+    # e.g. an `any_changed` accumulator, play no part in the walk)
+    rest = [l for l in carried if l not in role.values() and all(v.startswith("Sub(%s, " % fa.body.local_name(l)) for v in all_same(l))]
+    ctx.check(P, rule, "every way round restarts the in-page offset at 0 and moves to the next page", "offset" in role and "page" in role and len(rest) == 1,
+              "j := 0, i := i + 1 on all %d ways round" % len(rounds),
+              "ways round the page loop of set_range disagree on the loop variables: %s" % {fa.body.local_name(l): sorted(all_same(l)) for l in carried},
+              key="C08|C08.R5|set_range|offset and page advance")
+    if not ("offset" in role and "page" in role and len(rest) == 1):
+        return
+    jn, ln = fa.body.local_name(role["offset"]), fa.body.local_name(rest[0])
+    in_page = PV.render(("min", PV.lf_add(PV.lf_const(page), PV.lf_sym(jn), -1), PV.lf_sym(ln)))
+    want = "Sub(%s, %s)" % (ln, in_page)
+    bad = sorted({PV.render(p_.env.get(rest[0], PV.lf_sym(ln))) for p_ in rounds} - {want})
+    ctx.check(P, rule, "every way round consumes exactly the part of the range inside the current page", not bad,
+              "%s := %s on all ways round" % (ln, want),
+              "a way round the page loop of set_range shrinks the remaining length to %s instead of %s: when the range starts inside the page (j > 0) the walk drifts and bits near the end of the range are never written" % (bad, want),
+              key="C08|C08.R5|set_range|length consumed per page")
+    # the page's own set_range gets (j, that count, value); ways round without it only for an absent page and value == false
+    n_set = 0
+    odd = []
+    for p_ in rounds:
+        cs = [(c_, a_) for c_, a_, _ in p_.calls if c_.endswith("FixedBitfield::set_range")]
+        if cs:
+            n_set += 1
+            a_ = cs[0][1]
+            if not (len(cs) == 1 and len(a_) == 4 and PV.render(a_[1]) == jn and PV.render(a_[2]) == in_page and PV.render(a_[3]) == "value"):
+                odd.append("FixedBitfield::set_range(%s)" % ", ".join(PV.render(x) for x in a_[1:]))
+        else:
+            absent = any(k.startswith("contains_key(") and v is False for k, v in p_.cond.items()) or any(k.startswith("disc(get") for k in p_.cond)
+            if not (absent and p_.cond.get("value") is False):
+                odd.append("a way round without FixedBitfield::set_range under %s" % {k: v for k, v in p_.cond.items() if not k.startswith("Lt(")})
+    ctx.check(P, rule, "each page receives set_range(j, min(length, PAGE - j), value)", n_set > 0 and not odd, "%d ways round call it with (j, %s, value)" % (n_set, in_page),
+              "page walk of set_range: %s" % sorted(set(odd))[:3], key="C08|C08.R5|set_range|page call")
+    # the loop runs while length remains
+    hd = fa.origin_operand(fa.blocks[h].term["discr"], h, len(fa.blocks[h].stmts)) if fa.blocks[h].term["k"] == "switch" else None
+    conds = [c for c in (canon_cond(hd),) if hd is not None]
+    sw = [(o, tr, fl) for b_, o, tr, fl in bool_switches(fa, lambda o: o[0] == "bin" and o[1] in ("Lt", "Eq")) if b_ in body and (tr not in body or fl not in body)]
+    good = False
+    for o, tr, fl in sw:
+        # canonical Lt(0, length): continue on true; or Eq(length, 0): continue on false
+        if o[1] == "Lt" and term_is_lit(o[2], 0) and tr in body and fl not in body:
+            good = True
+        if o[1] == "Eq" and (term_is_lit(o[3], 0) or term_is_lit(o[2], 0)) and fl in body and tr not in body:
+            good = True
+    ctx.check(P, rule, "the walk continues while length remains", good, "while length > 0", "set_range's loop condition is %s" % [term_str(o)[:60] for o, _, _ in sw], key="C08|C08.R5|set_range|loop condition")
+
+
+RULES = [r1, r2, r3, r3b, r4, r5]
 EXPLANATION = ("C08 (has / contiguous_length exact for large, sparse, reopened cores): decides that every page/bit computation uses one named unit constant consistently (mask C-1 and divisor C, "
                "32768 bits = 4096 bytes = 1024 x 32-bit words) and that a missing page reads false (R1); that the page reader uses the writer's byte stride and page-relative little-endian words (R2); "
                "that every Bitfield::update in core.rs is followed on all paths by update_contiguous_length on the same update and bitfield, clear lowers the hint to `start`, info reports the "
                "maintained hint, and the replay path lowers the hint under the same condition as the live clear path (R3); that has()/get() are gated by Bitfield::get(index) (R4).")
-NOT_DECIDED = "the arithmetic inside update_contiguous_length and the bit masks of set_range (value level); behaviour after crash recovery (C02)."
+NOT_DECIDED = "the arithmetic inside update_contiguous_length and the bit masks of FixedBitfield::set_range (value level); behaviour after crash recovery (C02)."
 ASSUMPTIONS = ["intmap::IntMap behaves as a map"]
